@@ -26,7 +26,13 @@ import (
 	"strings"
 )
 
-const repo = "/repo"
+// repo: the tree the instrumented copies are generated from (/repo; VERIF_REPO overrides it for seeded-defect runs on scratch copies)
+var repo = func() string {
+	if r := os.Getenv("VERIF_REPO"); r != "" {
+		return r
+	}
+	return "/repo"
+}()
 const shimBase = "github.com/frankkopp/FrankyGo/verif/sched"
 
 type target struct {
